@@ -80,6 +80,7 @@ func routeInputs() []inputStmt {
 		{"query-bool", "flag := ct.QueryParamBool(c, \"flag\")\n\t_ = flag", q("flag", "bool")},
 		{"query-int64", "num := ct.QueryParamInt64(c, \"num\")\n\t_ = num", q("num", "int64")},
 		{"query-generic", "gid, errG := QueryParamInt[IdDossier](c, \"gid\")\n\t_, _ = gid, errG", q("gid", "IdDossier")},
+		{"query-generic-qualified", "gq, errQ := inner.QueryParamInt[IdDossier](c, \"gq\")\n\t_, _ = gq, errQ", q("gq", "IdDossier")},
 		{"query-const-name", "qc := c.QueryParam(paramName)\n\t_ = qc", q("from-const", "string")},
 		{"query-assign", "var qs string\n\tqs = c.QueryParam(\"q3\")\n\t_ = qs", q("q3", "string")},
 		{"query-var-decl", "var qv = c.QueryParam(\"q4\")\n\t_ = qv", q("q4", "string")},
@@ -273,9 +274,13 @@ func Routes(c explore.Chooser) *prog.Program {
 	}
 	routes = append(routes, extraRoutes...)
 
-	innerSrc := "package inner\n\nimport (\n\t\"fmt\"\n\n\t\"" + echoPath + "\"\n)\n\nconst Url = \"/inner/\"\n\ntype Controller struct{}\n\nfunc (Controller) HandleExt(c echo.Context) error {\n\tvar in []int64\n\tt, v := c.QueryParam(\"query1\"), c.QueryParam(\"query2\")\n\terr := c.Bind(&in)\n\t_ = fmt.Errorf(\"%s%s%s\", t, v, err)\n\tvar out map[string][]int\n\treturn c.JSON(200, out)\n}\n\nfunc TopLevel(c echo.Context) error {\n\treturn nil\n}\n"
+	innerSrc := "package inner\n\nimport (\n\t\"fmt\"\n\n\t\"" + echoPath + "\"\n)\n\nconst Url = \"/inner/\"\n\ntype Controller struct{}\n\nfunc (Controller) HandleExt(c echo.Context) error {\n\tvar in []int64\n\tt, v := c.QueryParam(\"query1\"), c.QueryParam(\"query2\")\n\terr := c.Bind(&in)\n\t_ = fmt.Errorf(\"%s%s%s\", t, v, err)\n\tvar out map[string][]int\n\treturn c.JSON(200, out)\n}\n\nfunc TopLevel(c echo.Context) error {\n\treturn nil\n}\n\nfunc QueryParamInt[T ~int64](echo.Context, string) (T, error) { return 0, nil }\n"
 	hdr := "package main\n\nimport (\n\t\"" + echoPath + "\"\n\t\"" + innerPath + "\"\n)\n\n"
-	bsrc := "package main\n\nimport \"" + echoPath + "\"\n\nvar _ echo.Context\n\n" + extraFile.String() + "\nfunc main() {}\n"
+	bimports := "import \"" + echoPath + "\"\n\n"
+	if strings.Contains(extraFile.String(), "inner.") {
+		bimports = "import (\n\t\"" + echoPath + "\"\n\t\"" + innerPath + "\"\n)\n\n"
+	}
+	bsrc := "package main\n\n" + bimports + "var _ echo.Context\n\n" + extraFile.String() + "\nfunc main() {}\n"
 
 	p := &prog.Program{Family: "F-routes", Analysed: []string{"routes.go"}, Features: s.Feats}
 	p.Pkgs = []*prog.Pkg{
